@@ -26,6 +26,15 @@ def describe(v, depth=0):
     return repr(v)
 
 
+def view_get(t, obj, attr):
+    """attribute ``attr`` that a kernel term read from its object parameter ``obj`` (kernels with a single object parameter record the
+    bare attribute name, kernels with several record ``obj.attr``); KeyError if the term has no such record"""
+    pv, objs = t.f['panel'], tuple(t.f.get('objs') or ())
+    if obj not in objs:
+        raise KeyError('%s is not an object parameter of %s %s' % (obj, t.f['fn'], objs))
+    return pv[attr if len(objs) == 1 else '%s.%s' % (obj, attr)]
+
+
 def diff_kernel(actual, fn, model, args, panelvals):
     """list of human-readable differences between an actual kernel term and the expected call"""
     out = []
